@@ -9,6 +9,7 @@ package c16
 import (
 	"fmt"
 	"os"
+	"os/exec"
 	"path"
 	"path/filepath"
 	"regexp"
@@ -26,9 +27,19 @@ import (
 
 type Engine struct {
 	TemplateDir string // templates of the working tree (scratch copy)
+	// CLIOnly turns the engine into the fault-injecting command-line tier of C14: the same scenarios
+	// and fault plans, judged only by C14's clauses (no panic escapes main; a failure is a message
+	// plus a non-zero exit status; an unreadable or failing input never ends in success).
+	CLIOnly   bool
+	EmergeBin string // real binary for the differential transparency tier (optional)
 }
 
-func (Engine) ID() string { return "C16" }
+func (e Engine) ID() string {
+	if e.CLIOnly {
+		return "C14"
+	}
+	return "C16"
+}
 
 func (Engine) Meta() simrt.Meta {
 	return simrt.Meta{
@@ -422,7 +433,21 @@ func (e Engine) judge(s scenario, rr runResult, pid int, tmpls []tmplInfo, acc, 
 		fKind, fArg = strings.TrimPrefix(foreign[0], "foreign:"), foreign[1]
 	}
 	if rr.crashed != nil {
-		return &verdict{"crash", fmt.Sprintf("main panicked: %v", rr.crashed)}
+		return &verdict{"cli_panic@" + simrt.PanicSite(rr.stack, false), fmt.Sprintf("main panicked (a Go stack trace instead of a message and an exit status): %v", rr.crashed)}
+	}
+	if e.CLIOnly {
+		if rr.code != 0 && rr.errMsgs == 0 && strings.TrimSpace(rr.stderr) == "" && !s.Help && !s.Version {
+			return &verdict{"cli_silent_failure", fmt.Sprintf("exit status %d without any error message", rr.code)}
+		}
+		for _, ev := range rr.hist {
+			if ev.Proc == pid && (ev.Op == "read" || ev.Op == "open") && ev.Fault != "" && ev.Err != "" && rr.code == 0 {
+				return &verdict{"cli_input_fault_ends_in_success", fmt.Sprintf("the input could not be read (%s) yet the run exited 0", ev)}
+			}
+		}
+		if s.FileState != "present" && rr.code == 0 && !s.Help && !s.Version {
+			return &verdict{"cli_missing_input_ends_in_success", fmt.Sprintf("input file is %s yet the run exited 0", s.FileState)}
+		}
+		return nil
 	}
 	// 1. untouched
 	var exempt []string
@@ -676,6 +701,17 @@ func (e Engine) Run(t *simrt.Tape, c simrt.Case, x *simrt.Ctx) *simrt.Result {
 		}
 		return fail(v, rr, "")
 	}
+	// ---- real-component tier: the shipped binary on a private temporary directory built from the
+	// same scenario must agree with the in-process run on the simulated OS (exit status, success
+	// announcement, resulting tree and file bytes). A disagreement means the stub misrepresents the
+	// real thing: harness failure (exit 2), never a verdict.
+	if e.EmergeBin != "" && !e.CLIOnly && c.Index%4 == 0 {
+		if diff := e.realTier(s, files, rr); diff != "" {
+			panic("transparency check failed: simulated and real run disagree: " + diff + fmt.Sprintf("\n scenario: %+v", s))
+		}
+		res.Evals++
+		res.Count("real_binary_differential_runs", 1)
+	}
 	if s.Help || s.Version {
 		return res
 	}
@@ -856,7 +892,7 @@ func knownFinding(x *simrt.Ctx, class string, s scenario) string {
 			continue
 		}
 		parts := strings.SplitN(k.Signature, "|", 2)
-		if parts[0] != class {
+		if parts[0] != class && !(strings.HasPrefix(class, "cli_panic@") && strings.Contains(class, k.Signature)) {
 			continue
 		}
 		if len(parts) == 2 && parts[1] != "name="+s.effectiveName() {
@@ -1012,4 +1048,121 @@ func (e Engine) twoInstances(t *simrt.Tape, s scenario, files []string, tmpls []
 		}
 	}
 	return nil, r1, note
+}
+
+// ---- real-component tier ----------------------------------------------------------------------
+
+func (e Engine) realTier(s scenario, files []string, sim runResult) string {
+	for _, a := range append(append([]string{}, s.Flags...), s.FileArg) {
+		if strings.ContainsRune(a, 0) {
+			return "" // cannot be passed to a real process
+		}
+	}
+	root, err := os.MkdirTemp("", "c16real-")
+	if err != nil {
+		panic(err)
+	}
+	defer func() {
+		filepath.Walk(root, func(p string, info os.FileInfo, err error) error {
+			if err == nil && info.IsDir() {
+				os.Chmod(p, 0o755)
+			}
+			return nil
+		})
+		os.RemoveAll(root)
+	}()
+	w := e.build(s, files)
+	snap := w.Snapshot()
+	var paths []string
+	for p2 := range snap {
+		paths = append(paths, p2)
+	}
+	sort.Strings(paths)
+	for _, p2 := range paths {
+		ent := snap[p2]
+		rp := filepath.Join(root, p2)
+		switch ent.Kind {
+		case "dir":
+			os.MkdirAll(rp, 0o755)
+		case "file":
+			os.MkdirAll(filepath.Dir(rp), 0o755)
+			os.WriteFile(rp, []byte(ent.Data), 0o644)
+		case "symlink":
+			t := ent.Target
+			if strings.HasPrefix(t, "/") {
+				t = filepath.Join(root, t)
+			}
+			os.Symlink(t, rp)
+		}
+	}
+	mapArg := func(a string) string {
+		if strings.HasPrefix(a, "/") {
+			return filepath.Join(root, a)
+		}
+		if strings.HasPrefix(a, "-out=/") {
+			return "-out=" + filepath.Join(root, strings.TrimPrefix(a, "-out="))
+		}
+		return a
+	}
+	var args []string
+	for i, a := range s.Flags {
+		if i > 0 && s.Flags[i-1] == "-name" {
+			args = append(args, a) // a name is never a path to remap
+			continue
+		}
+		args = append(args, mapArg(a))
+	}
+	args = append(args, mapArg(s.FileArg))
+	cmd := exec.Command(e.EmergeBin, args...)
+	cmd.Dir = filepath.Join(root, s.Cwd)
+	var so, se strings.Builder
+	cmd.Stdout, cmd.Stderr = &so, &se
+	code := 0
+	if err := cmd.Run(); err != nil {
+		if ee, ok := err.(*exec.ExitError); ok {
+			code = ee.ExitCode()
+		} else {
+			panic(err)
+		}
+	}
+	if code != sim.code {
+		return fmt.Sprintf("exit status: real %d, simulated %d (real stderr: %s)", code, sim.code, firstLine(se.String()))
+	}
+	announced := strings.Contains(strings.ToLower(so.String()), "success")
+	if announced != sim.announced {
+		return fmt.Sprintf("success announced: real %v, simulated %v", announced, sim.announced)
+	}
+	real := map[string]simos.Entry{}
+	filepath.Walk(root, func(p2 string, info os.FileInfo, err error) error {
+		if err != nil {
+			return nil
+		}
+		rel := "/" + strings.TrimPrefix(strings.TrimPrefix(p2, root), "/")
+		switch {
+		case info.Mode()&os.ModeSymlink != 0:
+			t, _ := os.Readlink(p2)
+			real[rel] = simos.Entry{Kind: "symlink", Target: strings.TrimPrefix(t, root)}
+		case info.IsDir():
+			real[rel] = simos.Entry{Kind: "dir"}
+		default:
+			b, _ := os.ReadFile(p2)
+			real[rel] = simos.Entry{Kind: "file", Data: string(b)}
+		}
+		return nil
+	})
+	for p2, ent := range sim.after {
+		r, ok := real[p2]
+		if !ok {
+			return fmt.Sprintf("%s exists after the simulated run but not after the real one", p2)
+		}
+		if r.Kind != ent.Kind || r.Data != ent.Data || (ent.Kind == "symlink" && r.Target != ent.Target) {
+			return fmt.Sprintf("%s differs: real %s/%d bytes, simulated %s/%d bytes", p2, r.Kind, len(r.Data), ent.Kind, len(ent.Data))
+		}
+	}
+	for p2 := range real {
+		if _, ok := sim.after[p2]; !ok {
+			return fmt.Sprintf("%s exists after the real run but not after the simulated one", p2)
+		}
+	}
+	return ""
 }
